@@ -662,6 +662,53 @@ class Gen:
                 recv = body[toks[sig[rs]].start:t.start]
                 edits.append((toks[sig[rs]].start, toks[sig[p + 2]].end, f"writer_write_all({recv}, "))
                 self.count("R4_write_all")
+        # R10  V[A..B].copy_from_slice(SRC)  ->  vec_copy_range(&mut V, A, B, SRC)   (Vec + two-sided range)
+        for p in range(n):
+            t = toks[sig[p]]
+            nxt = toks[sig[p + 1]] if p + 1 < n else None
+            if t.kind == "punct" and t.text == "." and nxt is not None and nxt.text == "copy_from_slice" and toks[sig[p - 1]].text == "]":
+                # find the matching '[' of the index
+                depth = 0
+                q = p - 1
+                while True:
+                    tt = toks[sig[q]]
+                    if tt.kind == "punct" and tt.text in ")]":
+                        depth += 1
+                    elif tt.kind == "punct" and tt.text in "([":
+                        depth -= 1
+                        if depth == 0:
+                            break
+                    q -= 1
+                idx_open = q
+                idx_text = body[toks[sig[idx_open]].end:toks[sig[p - 1]].start]
+                # split at top-level '..'
+                itoks = lex(idx_text)
+                d = 0
+                cut = None
+                for a_i in range(len(itoks) - 1):
+                    if itoks[a_i].kind == "punct" and itoks[a_i].text in "([{":
+                        d += 1
+                    elif itoks[a_i].kind == "punct" and itoks[a_i].text in ")]}":
+                        d -= 1
+                    elif d == 0 and itoks[a_i].text == "." and itoks[a_i + 1].text == "." and itoks[a_i].kind == "punct":
+                        cut = a_i
+                        break
+                if cut is None:
+                    continue
+                lo = "".join(x.text for x in itoks[:cut]).strip()
+                hi = "".join(x.text for x in itoks[cut + 2:]).strip()
+                if not lo or not hi or hi.startswith("="):
+                    continue   # `[..]`, `[a..]`, `[..b]`: handled by vstd (arrays / full ranges)
+                rs = recv_start(idx_open + 0) if False else None
+                # receiver: the postfix chain before '['
+                r0 = idx_open - 1
+                if toks[sig[r0]].kind != "ident":
+                    raise ExtractError(f"{relsrc}: {key}: copy_from_slice receiver too complex")
+                while r0 - 2 >= 0 and toks[sig[r0 - 1]].text == "." and toks[sig[r0 - 2]].kind == "ident":
+                    r0 -= 2
+                recv = body[toks[sig[r0]].start:toks[sig[idx_open]].start]
+                edits.append((toks[sig[r0]].start, toks[sig[p + 2]].end, f"vec_copy_range(&mut {recv}, {lo}, {hi}, "))
+                self.count("R10_vec_range_copy")
         # apply edits right to left; they must not overlap
         edits.sort()
         for a, b in zip(edits, edits[1:]):
@@ -815,6 +862,7 @@ def generate(repo, cdir, vacuity):
     g.emit("// Function bodies are copied from the sources; contracts come from contracts/src/*.contract.")
     g.emit("#![allow(unused, dead_code, non_camel_case_types, unused_imports, unused_variables, unused_mut)]")
     g.emit("use vstd::prelude::*;")
+    g.emit("verus! { global size_of usize == 8; }  // 64-bit target (usize/isize encoders, capacity arithmetic)")
     for name in sorted(os.listdir(cdir)):
         p = os.path.join(cdir, name)
         if name == "prelude.rs":
